@@ -426,11 +426,13 @@ func vpH_C17_nip11() {
 		}
 		h := BuildMiddlewareFromNIP11(&NIP11{Limitation: lim})(base)
 		seen := map[string]bool{}
+		var order []string // outermost first
 		for {
 			mh, ok := h.(*vpMarkHandler)
 			if !ok {
 				break
 			}
+			order = append(order, mh.name)
 			vpAssert(!seen[mh.name], "C17.nip11-each-middleware-once")
 			seen[mh.name] = true
 			vpAssert(mh.value == want[mh.name], "C17.nip11-own-value")
@@ -438,6 +440,23 @@ func vpH_C17_nip11() {
 			h = mh.inner
 		}
 		vpAssert(h == base, "C17.nip11-wraps-the-handler")
+		// a REQ rejected by max_filters / max_limit must not take a subscription slot: the
+		// quota sits inside (after) the middlewares that can reject a REQ
+		pos := func(name string) int {
+			for i, n := range order {
+				if n == name {
+					return i
+				}
+			}
+			return -1
+		}
+		if q := pos("max_subscriptions"); q >= 0 {
+			for _, outer := range []string{"max_filters", "max_limit"} {
+				if o := pos(outer); o >= 0 {
+					vpAssert(o < q, "C17.nip11-rejected-req-takes-no-subscription-slot")
+				}
+			}
+		}
 		for name, v := range want {
 			vpAssert(vpImplies(v != 0, seen[name]), "C17.nip11-every-set-limit-enforced")
 		}
